@@ -60,6 +60,24 @@ def defaultClassKind : ClassKindFn := fun fname =>
   else if e = dotGsh ∨ e = dotGmx then (true, true)
   else (false, false)
 
+/-- How a case of `defaultClassKind`'s switch computes `isProj` (the forms the translator
+`extract/dirclassify.go` accepts). -/
+inductive ProjRule where
+  | always | never | nameEq (lit : Name)
+  deriving DecidableEq, Repr
+
+def ProjRule.eval (fname : Name) : ProjRule → Bool
+  | .always => true
+  | .never => false
+  | .nameEq lit => fname == lit
+
+/-- Interpreter of the regenerated table `Generated.DirClassify.defaultClassKindCases`:
+first case whose extension list contains `path.Ext(fname)`; `(false, false)` if none. -/
+def evalClassKindCases : List (List Name × ProjRule × Bool) → ClassKindFn
+  | [], _ => (false, false)
+  | (exts, rule, ok) :: rest, fname =>
+    if exts.contains (ext fname) then (rule.eval fname, ok) else evalClassKindCases rest fname
+
 structure Flags where
   isProj : Bool
   isClass : Bool
